@@ -1275,3 +1275,138 @@ pub fn gen_c06(rng: &mut Rng, d: &mut Dist, _idx: u64) -> Vec<String> {
     }
     out
 }
+
+fn msg_tokens(rng: &mut Rng, d: &mut Dist, off: i64) -> String {
+    let k = match rng.below(4) {
+        0 => "~".to_string(),
+        1 => "-".to_string(),
+        _ => hex(&rng.rbytes(1, 6)),
+    };
+    let v = match rng.below(8) {
+        0 => "~".to_string(),
+        1 => "-".to_string(),
+        2 => {
+            bump(d, "value-large");
+            hex(&rng.rbytes(200, 3000))
+        }
+        _ => hex(&rng.rbytes(1, 20)),
+    };
+    format!(" {} {} {}", off, k, v)
+}
+
+/// a wrapper message (attr = codec) around an inner message set compressed by the *real* encoders
+/// (flate2 at a random level, snap raw blocks in xerial framing with a random chunk size)
+pub fn real_wrapper(rng: &mut Rng, codec: u8, last_offset: i64, inner: &[u8]) -> Vec<u8> {
+    use std::io::Write;
+    let payload: Vec<u8> = if codec == 1 {
+        let level = *rng.pick(&[1u32, 6, 9]);
+        let mut e = flate2::write::GzEncoder::new(Vec::new(), flate2::Compression::new(level));
+        e.write_all(inner).unwrap();
+        e.finish().unwrap()
+    } else {
+        let chunk = *rng.pick(&[16usize, 100, 4096, 1 << 16]);
+        let mut out = vec![0x82, b'S', b'N', b'A', b'P', b'P', b'Y', 0, 0, 0, 0, 1, 0, 0, 0, 1];
+        for c in inner.chunks(chunk) {
+            let mut buf = vec![0; snap::raw::max_compress_len(c.len())];
+            let n = snap::raw::Encoder::new().compress(c, &mut buf).unwrap();
+            out.extend((n as i32).to_be_bytes());
+            out.extend(&buf[..n]);
+        }
+        out
+    };
+    raw_msg(last_offset, codec, None, Some(&payload), 0)
+}
+
+/// C02: logs over {plain, gzip, snappy, nested} batches (Lean stored-block / literal encoders *and* real flate2 / snap
+/// output), offset gaps, null / empty / binary / large payloads, several topics x partitions; fetches at offsets
+/// below / inside / at the end of batches with sizes that cut entries at arbitrary byte positions.
+pub fn gen_c02(rng: &mut Rng, d: &mut Dist, _idx: u64) -> Vec<String> {
+    let cl = Cluster::random(rng, 3, false);
+    let mut out = cl.setup_lines();
+    let mut sizes: Vec<(String, usize, i64, usize)> = Vec::new(); // topic, partition, end offset, approx bytes
+    for t in &cl.topics {
+        for p in 0..t.leaders.len() {
+            let mut off: i64 = rng.below(3) as i64;
+            let nb = rng.below(6);
+            let mut bytes = 0usize;
+            for _ in 0..nb {
+                let n = 1 + rng.below(4) as i64;
+                let kind = rng.below(8);
+                // messages of this batch
+                let mut toks = String::new();
+                let mut plain: Vec<u8> = Vec::new();
+                let first = off;
+                for _ in 0..n {
+                    let tk = msg_tokens(rng, d, off);
+                    // also render the plain bytes for the real-encoder variants
+                    let parts: Vec<&str> = tk.trim().split(' ').collect();
+                    let k = if parts[1] == "~" { None } else { Some(crate::lean::unhex(parts[1])) };
+                    let v = if parts[2] == "~" { None } else { Some(crate::lean::unhex(parts[2])) };
+                    plain.extend(raw_msg(off, 0, k.as_deref(), v.as_deref(), 0));
+                    toks.push_str(&tk);
+                    off += 1 + if rng.chance(1, 5) { rng.below(3) as i64 } else { 0 };
+                }
+                let last = {
+                    // last message offset of the batch
+                    let parts: Vec<&str> = toks.trim().split(' ').collect();
+                    parts[parts.len() - 3].parse::<i64>().unwrap()
+                };
+                bytes += plain.len();
+                match kind {
+                    0 | 1 | 2 => {
+                        bump(d, "batch-plain");
+                        out.push(format!("APPEND {} {} plain{}", h(&t.name), p, toks));
+                    }
+                    3 => {
+                        bump(d, "batch-gzip-stored");
+                        out.push(format!("APPEND {} {} comp 1 {}{}", h(&t.name), p, 1000, toks));
+                    }
+                    4 => {
+                        bump(d, "batch-snappy-literal");
+                        out.push(format!("APPEND {} {} comp 2 {}{}", h(&t.name), p, rng.pick(&[7u32, 100, 100000]), toks));
+                    }
+                    5 => {
+                        bump(d, "batch-gzip-flate2");
+                        out.push(format!("APPENDRAW {} {} {} {} {}", h(&t.name), p, first, last, hex(&real_wrapper(rng, 1, last, &plain))));
+                    }
+                    6 => {
+                        bump(d, "batch-snappy-snap");
+                        out.push(format!("APPENDRAW {} {} {} {} {}", h(&t.name), p, first, last, hex(&real_wrapper(rng, 2, last, &plain))));
+                    }
+                    _ => {
+                        bump(d, "batch-nested");
+                        let c1 = 1 + rng.below(2) as u8;
+                        let c2 = 1 + rng.below(2) as u8;
+                        let inner = real_wrapper(rng, c2, last, &plain);
+                        out.push(format!("APPENDRAW {} {} {} {} {}", h(&t.name), p, first, last, hex(&real_wrapper(rng, c1, last, &inner))));
+                    }
+                }
+            }
+            sizes.push((t.name.clone(), p, off, bytes));
+        }
+    }
+    if rng.chance(1, 3) {
+        out.push(format!("ORDER {}", rng.pick(&["rev", "rot 1"])));
+    }
+    out.push(format!("OP client_new {}", cl.bootstrap()));
+    if rng.chance(1, 4) {
+        out.push("OP c set crc 0".into());
+    }
+    out.push("OP c load_metadata_all".into());
+    let nf = 1 + rng.below(4);
+    for _ in 0..nf {
+        let mut line = String::from("OP c fetch_messages");
+        for (t, p, end, bytes) in &sizes {
+            if rng.chance(1, 5) {
+                continue;
+            }
+            let off = if *end == 0 { 0 } else { rng.range(0, *end) };
+            // fetch sizes that cut entries at arbitrary byte positions, or everything
+            let mb = if rng.chance(1, 3) { -1 } else { 1 + rng.below(*bytes as u64 + 40) as i64 };
+            bump(d, if mb < 0 { "fetch-all" } else { "fetch-cut" });
+            line.push_str(&format!(" {} {} {} {}", h(t), p, off, mb));
+        }
+        out.push(line);
+    }
+    out
+}
